@@ -1,4 +1,5 @@
 import TracklibVerif.Lemmas.GraphTable
+import TracklibVerif.Lemmas.GraphPD
 import Mathlib.Algebra.Order.Group.Int
 /-! # C06 — network shortest distances are the true minimum over permitted walks
 
@@ -18,6 +19,19 @@ real nodes and non-negative) are preserved by one iteration of `run_routing_forw
 theorem forward_invariant (net : Net W) (hnet : WFNet net) (s : Nat) (st : St W) (hinv : Inv net s st)
     (u : Nat) (du : W) (hpop : popMinAux st net.n = some (u, du)) : Inv net s (settle net st u du) :=
   settle_inv net hnet s st hinv u du hpop
+
+/-- T1 (`certificate_sound`): any labelling that satisfies the invariants and leaves nothing to pop (every labelled node
+settled) is the distance function: every label is the minimum weight over permitted walks, and the unlabelled nodes
+are exactly the unreachable ones. -/
+theorem certificate_sound (net : Net W) (s : Nat) (st : St W) (hinv : Inv net s st) (hdone : step net st = none) :
+    (∀ v y, st.d v = some y ↔ IsDist net s v y) ∧ (∀ v, st.d v = none ↔ ¬ Reachable net s v) := by
+  obtain ⟨h1, h2⟩ := labels_are_distances net s st hinv hdone
+  refine ⟨fun v y => ⟨fun h => ⟨h2 v y h, fun c hc => ?_⟩, fun ⟨hw, hmin⟩ => ?_⟩,
+    unlabelled_iff_unreachable net s st hinv hdone⟩
+  · obtain ⟨y', hy', hle⟩ := h1 v c hc
+    rw [h] at hy'; cases hy'; exact hle
+  · obtain ⟨y', hy', hle⟩ := h1 v y hw
+    rw [hy']; congr 1; exact le_antisymm hle (hmin y' (h2 v y' hy'))
 
 /-- T3: after `run_routing_forward(s)` (no target, no cut-off) the label of every node is the minimum total
 weight over the permitted walks from `s`, and a node is unlabelled (`poids = -1`) exactly when no walk exists. -/
@@ -121,6 +135,34 @@ theorem prepared_twice_correct (net : Net W) (hnet : WFNet net) (order : List Na
       unfold allShortestDistances at h1 ⊢
       rw [h1, h2]
 
+/-! ### the queue: `priority_dict` with lazy deletion (`Model/PDict.lean`) -/
+
+/-- [stretch] `priority_dict.pop_smallest`: when every current entry of the dict has its `(priority, key)` tuple in the
+heap (`HInv`; established by the constructor, kept by `__setitem__` — `priority_dict_setitem` — and by `pop_smallest`),
+a pop on a non-empty dict returns the key whose `(priority, key)` tuple is the smallest among the *current* entries,
+however many stale tuples the heap still holds, removes exactly that key, and keeps `HInv`. (`heappop` is taken to
+remove a smallest tuple of the heap list; `heapq`'s sift operations are not modelled.) -/
+theorem pop_smallest_min (pd : PDict.PD W) (hinv : PDict.HInv pd) (k0 : Nat) (v0 : W)
+    (h0 : PDict.lookup pd.dict k0 = some v0) :
+    ∃ k v pd', PDict.popSmallest pd = some (k, pd') ∧ PDict.lookup pd.dict k = some v ∧
+      (∀ k' v', PDict.lookup pd.dict k' = some v' → PDict.tle (v, k) (v', k')) ∧
+      (∀ k', PDict.lookup pd'.dict k' = if k' = k then none else PDict.lookup pd.dict k') ∧ PDict.HInv pd' :=
+  PDict.popSmallest_spec pd hinv k0 v0 h0
+
+/-- `pd[k] = v` (heap push, or rebuild once the heap has reached twice the size of the dict) sets that entry only and
+keeps the heap invariant; `priority_dict(d)` establishes it. -/
+theorem priority_dict_setitem (pd : PDict.PD W) (hinv : PDict.HInv pd) (k : Nat) (v : W) :
+    (∀ k', PDict.lookup (PDict.setitem pd k v).dict k' = if k' = k then some v else PDict.lookup pd.dict k') ∧
+      PDict.HInv (PDict.setitem pd k v) ∧ ∀ d : List (Nat × W), PDict.HInv (PDict.ofDict d) :=
+  ⟨(PDict.setitem_spec pd hinv k v).1, (PDict.setitem_spec pd hinv k v).2, PDict.ofDict_inv⟩
+
+/-- `run_routing_forward` written with the explicit `priority_dict` (`fil = priority_dict({source: 0})`,
+`pere = fil.pop_smallest()`, `fil[fils] = fils.poids`, `while len(fil) != 0`) computes exactly what the loop with the
+abstract "pop the labelled unsettled node with the smallest (label, id)" computes — so all theorems above hold for it. -/
+theorem forward_uses_priority_dict (net : Net W) (hnet : WFNet net) (s : Nat) (hs : s < net.n)
+    (tgt : Option Nat) (cut : Option W) : runForwardPD net s tgt cut = runForward net s tgt cut :=
+  runForwardPD_eq net hnet s hs tgt cut
+
 /-! ### the hypotheses are satisfiable by a non-trivial network, and the model computes on it -/
 
 /-- 3 nodes; a zero-weight two-way edge 0–1, an edge stored 2→1 that may only be travelled 1→2
@@ -137,5 +179,8 @@ example : shortestDistance demo 2 0 none = none := by decide +kernel
 /-- beyond the cut-off the code returns a tentative label (outside the property's statement) -/
 example : shortestDistance demo 0 2 (some 0) = some 1 := by decide +kernel
 example : (runForward demo 0 none (some 0)).2 = [(0, 0), (1, 0)] := by decide +kernel
+example : (runForwardPD demo 0 none (some 0)).2 = [(0, 0), (1, 0)] := by decide +kernel
+/-- a stale heap entry (key 1 was lowered from 5 to 0) is skipped; ties on the priority go to the smaller key -/
+example : (PDict.popSmallest (PDict.setitem (PDict.ofDict [(1, (5 : Int)), (2, 0)]) 1 0)).map (·.1) = some 1 := by decide +kernel
 
 end TV.C06
